@@ -419,7 +419,7 @@ class WarnCounter(logging.Handler):
 # decoding the files a data set left behind
 # ------------------------------------------------------------------------------------------------
 
-def ql_read(path: str) -> List[Tuple[Optional[bytes], Optional[bytes]]]:
+def ql_read(path: str, both: bool = False) -> List[Tuple[Optional[bytes], Optional[bytes]]]:
     """`QLReader.load` as a user calls it (default arguments; one reader object per process, used for file after file).
     Every message type the harness records is defined in the definitions module, so a message the reader *skips* as
     unknown is a message it failed to give back: it counts as undecodable, as does a disagreement between the three
@@ -441,6 +441,16 @@ def ql_read(path: str) -> List[Tuple[Optional[bytes], Optional[bytes]]]:
     if [(bytes(m.header), bytes(m.data)) for m in rd.messages] != out or len(rd.headers) != len(rd.data):
         out.append((None, b"headers/data/messages disagree"))
     out += [(None, b"skipped as unknown")] * int(rd.skipped or 0)
+    if both:
+        # the other value of the reader's option: with every type defined it must give the same messages
+        n0 = len(sys.path)
+        try:
+            rd.load(path, E["defs"], skip_unknown=False)
+        finally:
+            while len(sys.path) > n0:
+                sys.path.pop(0)
+        if [(bytes(h), bytes(d)) for h, d in zip(rd.headers, rd.data)] != out or len(rd.messages) != len(out):
+            out.append((None, b"load(skip_unknown=False) gives other messages than load()"))
     return out
 
 
@@ -505,10 +515,12 @@ def csv_read(text: str) -> List[Tuple[Optional[bytes], Optional[bytes]]]:
     return out
 
 
-def decode_file(fmt: str, path: str) -> List[Tuple[Optional[bytes], Optional[bytes]]]:
+def decode_file(fmt: str, path: str, both: bool = False) -> List[Tuple[Optional[bytes], Optional[bytes]]]:
+    """`both`: quicklogger files are read twice, with the default arguments and with `skip_unknown=False` (format
+    cases and multi-session runs; the scheduled cases read once, with the defaults)"""
     try:
         if fmt == "quicklogger":
-            return ql_read(path)
+            return ql_read(path, both)
         if fmt == "raw":
             return raw_read(open(path, "rb").read())
         if fmt == "json":
@@ -814,7 +826,7 @@ def run_fmt_case(fmt: str, types: Sequence[int], part: Sequence[int], last: int)
         finally:
             fd.close()
         out["file"] = open(path, "rb").read()
-        out["read"] = decode_file(fmt, path)
+        out["read"] = decode_file(fmt, path, both=True)
     finally:
         shutil.rmtree(d, ignore_errors=True)
     return out
@@ -927,7 +939,7 @@ def multi_session_check(fmt: str = "raw", flush_every_update: bool = False, sess
                 # the data set's file(s) of this recording
                 paths = sorted(str(p) for p in Path(base).rglob(f"rec{si}*"))
                 for pth in paths:
-                    for kk in decode_file(fmt, pth):
+                    for kk in decode_file(fmt, pth, both=True):
                         got.append(keys.get(kk, ("foreign", kk[0][:8].hex() if kk[0] else None)))
                 out["sessions"].append({"sent": sent, "read": got, "files": [os.path.basename(p) for p in paths]})
                 not_recording()                  # after stop(): dropped, and harmless for the next recording
